@@ -41,7 +41,7 @@ def sparse_cfg(rng):
         p_guidance=0.4, p_media=0.4, p_hint=0.5, p_constraint=0.5, p_constraint_msg=0.8, p_required=0.4, p_required_msg=0.8,
         p_select=0.4, p_or_other=rng.choice([0, 0.3]), p_choice_media=rng.choice([0, 0.4]), p_choice_nolabel=rng.choice([0, 0, 0.15]),
         p_choice_label_ref=rng.choice([0, 0.3]), p_search=rng.choice([0, 0.4]), p_label_ref=0.3, p_trigger=0, p_choice_filter=0.2,
-        p_randomize=rng.choice([0, 0.3]), p_section_media=rng.choice([0, 0.3]), p_noapp=rng.choice([0, 0.3]))
+        p_randomize=rng.choice([0, 0.3]), p_section_media=rng.choice([0, 0.3]), p_noapp=rng.choice([0, 0.3]), p_msg_ref=rng.choice([0, 0.4]))
 
 
 KINDS = ["label", "hint", "guidance_hint", "image", "constraint_message"]
